@@ -89,7 +89,9 @@ def record_decor_case(cid, c, mods, origin='tlc'):
         node.data['word'] = 'w'
     params = {o: True for o in c['o']}
     if c['gfsep'] != '-':
-        params['gf_separator'] = c['gfsep']
+        # the value as the command line hands it over (`gf_separator:0` arrives as the integer 0)
+        params['gf_separator'] = mods['misc'].options_dict(['gf_separator:%s' % c['gfsep']])['gf_separator'] \
+            if 'misc' in mods else c['gfsep']
     ev = {'a': 'get_label', 'nd': {'lab': list(c['lab']), 'edge': list(c['edge']), 'head': c['head'],
                                    'split': c['split'], 'inner': 'T' if c['inner'] else 'F'},
           'opts': sorted(c['o']), 'gfsep': [c['gfsep']], 'bnchars': list(str(c['bn']))}
